@@ -1195,6 +1195,23 @@ class MeiParser(object):
                 all_notes_dict[start_id].tie_next = all_notes_dict[end_id]
                 all_notes_dict[end_id].tie_prev = all_notes_dict[start_id]
 
+        # ties written as attributes: @tie = "i" (initial), "m" (medial) or
+        # "t" (terminal); a note is tied to the next note of the same pitch
+        # on the same staff that carries "m" or "t"
+        open_ties = {}
+        for note_el in section_el.iter(self._ns_name("note")):
+            tie = note_el.get("tie")
+            note = all_notes_dict.get(note_el.get(self._ns_name("id", XML_NAMESPACE)))
+            if tie is None or note is None:
+                continue
+            key = (note.staff, note.step, note.alter, note.octave)
+            if tie[0] in ("m", "t") and key in open_ties:
+                prev_note = open_ties.pop(key)
+                prev_note.tie_next = note
+                note.tie_prev = prev_note
+            if tie[0] in ("i", "m"):
+                open_ties[key] = note
+
     def _insert_repetitions(self):
         if len(self.repetitions) == 0:
             return
